@@ -1,6 +1,9 @@
 package main
 
 import (
+	"fmt"
+	"strings"
+
 	"golang.org/x/tools/go/ssa"
 )
 
@@ -140,7 +143,67 @@ func checkInfluence(c *Ctx, p *Program, rule string, fn *ssa.Function, deciding 
 			}
 		}
 	}
+	// the deciding call made by a helper of the package (checkPairing(a, b, vk)): the arguments of
+	// the helper that reach the deciding call there are the sinks here
+	viaHelper := map[string]bool{}
+	if len(sinks) == 0 {
+		for _, b := range fn.Blocks {
+			for _, in := range b.Instrs {
+				call, ok := in.(*ssa.Call)
+				if !ok {
+					continue
+				}
+				h := call.Call.StaticCallee()
+				if h == nil || h.Blocks == nil || h.Pkg != fn.Pkg {
+					continue
+				}
+				var hs []ssa.Value
+				for _, hb := range h.Blocks {
+					for _, hin := range hb.Instrs {
+						if hc, ok := hin.(*ssa.Call); ok && calleeOf(&hc.Call).Name == deciding {
+							hs = append(hs, hc.Call.Args...)
+						}
+					}
+				}
+				if len(hs) == 0 {
+					continue
+				}
+				hr := influenceSet(h, hs)
+				for i := range h.Params {
+					if i >= len(call.Call.Args) {
+						break
+					}
+					tok := fmt.Sprintf("p%d", i)
+					if h.Signature.Recv() != nil {
+						if i == 0 {
+							tok = "pr"
+						} else {
+							tok = fmt.Sprintf("p%d", i-1)
+						}
+					}
+					var ri map[string]bool
+					for k, v := range hr {
+						if v && (k == tok || strings.HasPrefix(k, tok+".") || strings.HasPrefix(k, tok+"[")) {
+							// what reaches this argument here reaches, with the path the helper follows
+							// from its parameter (vk → vk.Lines), the deciding call
+							if ri == nil {
+								ri = influenceSet(fn, []ssa.Value{call.Call.Args[i]})
+							}
+							for r, ok := range ri {
+								if ok {
+									viaHelper[r+k[len(tok):]] = true
+								}
+							}
+						}
+					}
+				}
+			}
+		}
+	}
 	reached := influenceSet(fn, sinks)
+	for k := range viaHelper {
+		reached[k] = true
+	}
 	for _, want := range inputs {
 		c.Ob(rule, relPkg(fnPkgPath(fn)), funcKey(fn), "input-influences-decision("+want+")", p.Pos(fn.Pos()), reached[want],
 			funcKey(fn)+": input "+want+" does not flow into the arguments of "+deciding+": the verdict does not depend on it")
